@@ -14,7 +14,9 @@ def P(n, families, **kw):
 
 PROPS = {
     "C01": P(1, ["C01"]),
-    "C02": P(2, ["C02"]),
+    "C02": P(2, ["C02"],
+        assumptions=["t.wf, hasType t v, View.inRange t (every subtree depth < 64: all lengths/limits <= 2^62)", "(serialize t v).length < 2^32 for Serialize of types with offsets (WriteOffset panics beyond)",
+                     "round trip: the decoder accepting every spec encoding (DecodeComplete) is not proved; it is exercised by the dynamic rt ops"]),
     "C03": P(3, ["C03"]),
     "C04": P(4, ["C04"], stateful=True),
     "C05": P(5, ["C05"], stateful=True),
@@ -38,6 +40,23 @@ PROPS = {
         assumptions=["b.length < 2^64 where len is converted to uint64", "BitvectorCheck: n + 7 < 2^64; for n >= 2^64-7 the Go code wraps and accepts exactly the empty string (bitvectorCheck_wrapped; same arithmetic as known finding D19; generator does not emit these)",
                      "len/ones/zero PROP only on valid bitlist encodings, get/set PROP only for indices inside the slice (CORR everywhere)"],
         trusted=COMMON_TRUST + ["Lean core UInt64/UInt8 semantics = Go uint64/uint8", "math/bits.OnesCount8 modelled by its specification"]),
+    "C11": P(11, ["C11"],
+        rule="CORR: model obs == Go obs for every tr.* op (dump of result tree, root, unchanged/shared flags, error class, panic); PROP on the Go observation with spec helpers: read-back = written node, every sibling of the path = original node "
+             "(or zero node inside an expanded summary), root = branch root over original siblings (= write into materialised zero subtree), summarise keeps root, unchanged=1 shared=1 (Go checks pointer identity of all off-path nodes and the dump/root of the original), "
+             "errors only nav and exactly when the path meets a leaf that is not (expand and zero hash of the remaining height); fills: root = merk; quick: all shapes to depth 3 x gindex 1..63 x expand x leaf kinds (seed 10% slice), random trees depth <= 12 with up to 64-bit indices, boundary stream; thorough: exhaustive",
+        explanation="ZtypV.Props.C11.*: get/set, off-path identity, sibling/spine description, error independence, no panic, expansion == write into materialised tree, only zero summaries expand, summarise preserves root, fill roots = merk, gbits/toPath = binary expansion; for every tree, path and pair hash",
+        assumptions=["memo field of PairNode erased (MerkleRoot recomputed)", "gindex 0 is not a generalized index: CORR only", "fill depth >= 64 CORR only (uint64 shift wraps to 0; Model/Tree.lean fills use 2^depth on naturals, faithful below depth 64)", "fillToLength law needs length > 0", "Gindex64 bit iteration = gbits (C16)"],
+        trusted=COMMON_TRUST + ["tree text notation parser/dumper written twice (Go and Lean)", "pointer-identity checks in harness/ops_tree.go"]),
+    "C12": P(12, ["C12"], stateful=True),
+    "C14": P(14, ["C14"], race=True),
+    "C20": P(20, ["C20"]),
+    "C19": P(19, ["C19"],
+        rule="CORR = model observation string equal to the implementation's on every cv.* op (each op runs every public route reaching the same conv function); PROP = verdict ok on every line; "
+             "all uint8/uint16 values, boundary and random uint32/64/256 in bases 2/8/10/16 with prefixes, underscores, quotes, signs, whitespace, decimal 2^k±1 for k <= 264, hex texts of every length 0..80; distinct = distinct op lines",
+        explanation="unmarshal accepted iff the text (quotes stripped) is a Go literal denoting n < 2^w, never truncating; marshal then unmarshal is the identity for 8/16/32/64/256; fixed hex accepted iff exactly 2*len hex digits (ZtypV.Props.C19.*)",
+        assumptions=["amd64 build (IntSize 64)", "Go 1.23 stdlib strconv/math/big/encoding/hex and holiman/uint256 v1.2.0 behave as transcribed in Model/Conv.lean Part A (checked differentially)",
+                     "nil destinations not modelled; destination contents after an error are not observed"],
+        trusted=COMMON_TRUST + ["transcription of the Go integer-literal grammar (denotes/denotesInt/hexDenotes)", "Part A transcriptions of the stdlib algorithms"]),
     "C15": P(15, ["C15", "C15b", "C15x"],
         rule="op `sizes T`: the constructors' IsFixedByteLength/TypeByteLength/MinByteLength/MaxByteLength vs model Sizes.typeSizes (CORR) and vs Spec isFixed/typeByteLength/minSize/maxSize unless maxSize >= 2^64 (PROP); "
              "op `sizes.wit T`: the library encodes/decodes/re-encodes minimum and maximum witnesses; C15b enumerates every quantifier length on every leaf/series kind, depth 1-2 exhaustively over a reduced alphabet, overflow-boundary types; "
